@@ -351,6 +351,64 @@ def _multiset_drawn(draw):
     return {"counts": counts, "labels": labels, "order": draw(st.sampled_from(["sorted", "reversed", "shuffled"])), "seed": draw(gen.SEED)}
 
 
+@st.composite
+def _multiset_history(draw):
+    k = draw(st.integers(2, 4))
+    size = draw(st.integers(3, 6))
+    counts = [0] * k
+    for _ in range(size):
+        counts[draw(st.integers(0, k - 1))] += 1
+    labels = draw(st.lists(st.integers(-20, 20), min_size=k, max_size=k, unique=True))
+    return {
+        "counts": counts, "labels": labels, "order": draw(st.sampled_from(["sorted", "reversed", "shuffled"])), "seed": draw(gen.SEED),
+        "taken": draw(st.integers(0, 12)), "keep_alive": draw(st.booleans()), "outer": draw(st.integers(1, 3)),
+    }
+
+
+def check_unique_perms_history(case):
+    """Every enumeration lists each rearrangement exactly once whatever happened to earlier enumerations of the same
+    multiset: one abandoned after a few items (still referenced, or dropped), one suspended while another runs (nested
+    loops).  unique_perms is a generator, so these are the ordinary ways of consuming it (next / break / islice)."""
+    from toqito.perms import unique_perms
+
+    el = _elements(case)
+    full = Counter(itertools.permutations(el))
+    want = set(full)
+    total = len(want)
+
+    def listing(what):
+        got = [tuple(int(x) for x in o) for o in unique_perms(list(el))]
+        c = Counter(got)
+        req(set(c) == want and len(got) == total, f"unique_perms({el}) {what}: {len(got)} outputs, {len(c)} distinct, expected {total} distinct rearrangements", "history:" + what.split(":")[0])
+
+    # 1. an enumeration abandoned after `taken` items
+    it = unique_perms(list(el))
+    head = [tuple(int(x) for x in o) for o in itertools.islice(it, min(case["taken"], total))]
+    if not case["keep_alive"]:
+        del it
+    listing("after-abandoned: a full enumeration following one that was stopped early")
+    # 2. the suspended enumeration resumes where it stopped
+    if case["keep_alive"]:
+        rest = [tuple(int(x) for x in o) for o in it]
+        c = Counter(head + rest)
+        req(set(c) == want and len(head) + len(rest) == total, f"unique_perms({el}) resumed after another enumeration ran: {len(head) + len(rest)} outputs, {len(c)} distinct, expected {total}", "history:resumed")
+    # 3. nested loops over the same multiset
+    seen_outer = []
+    for n_outer, o in enumerate(unique_perms(list(el))):
+        seen_outer.append(tuple(int(x) for x in o))
+        if n_outer < case["outer"]:
+            listing("nested: an enumeration run inside the loop body of another one")
+    c = Counter(seen_outer)
+    req(set(c) == want and len(seen_outer) == total, f"unique_perms({el}) outer loop with nested enumerations: {len(seen_outer)} outputs, {len(c)} distinct, expected {total}", "history:outer")
+
+
+def nt_multiset_history(case):
+    c = [k for k in case["counts"] if k > 0]
+    if len(c) < 2 or max(c) < 2:
+        return None
+    return f"taken={min(case['taken'], 3)},alive={case['keep_alive']},outer={case['outer']}"
+
+
 # ------------------------------------------------------------------------------------------
 # 5. perfect_matchings
 # ------------------------------------------------------------------------------------------
@@ -440,6 +498,7 @@ SUBCHECKS = [
     SubCheck("perm_sign_mult_drawn", check_sign_mult, _sign_pair_drawn, nt_sign, quick=8000, thorough=40000, shards=4),
     SubCheck("unique_perms_enum", check_unique_perms, None, nt_multiset, cases=_multiset_cases, exhaustive=True, shards=4),
     SubCheck("unique_perms_drawn", check_unique_perms, _multiset_drawn, nt_multiset, quick=600, thorough=4000, shards=8),
+    SubCheck("unique_perms_history", check_unique_perms_history, _multiset_history, nt_multiset_history, quick=600, thorough=4000, shards=4),
     SubCheck("perfect_matchings_enum", check_perfect_matchings, None, nt_pm, cases=_pm_cases, exhaustive=True, shards=8),
     SubCheck("perfect_matchings_drawn", check_perfect_matchings, _pm_drawn, nt_pm, quick=1500, thorough=8000, shards=4),
 ]
